@@ -72,8 +72,9 @@ def getProgram (o : Opts) : List Step :=
     | .none => if o.filter && o.uniformise then [.timeNew, .interpX] else []) ++
   (if o.taper then [.libX] else []) ++ (if o.filter then [.libX] else []) ++ (if o.smooth then [.libX] else [])
 
-/-- `TimeSeries.minima`: `get`, then `x *= -1.` in place, `find_maxima`, `m *= -1.` on its (new) result. -/
-def minimaProgram (o : Opts) : List Step := getProgram o ++ [.inplaceX]
+/-- `TimeSeries.minima`: `get`, then `x = -1. * x` (a new array since the F51 repair; before it was `x *= -1.` in place on the
+array `get` returned), `find_maxima`, `m *= -1.` on its (new) result. -/
+def minimaProgram (o : Opts) : List Step := getProgram o ++ [.libX]
 
 def start : Env := ⟨.stored, .stored⟩
 
